@@ -13,7 +13,7 @@
 (*                                                                         *)
 (* The universe is the sequence USeq (a set, ordered by TLC); pairs and    *)
 (* pipelines refer to annotations by their index in USeq, the ANN lines    *)
-(* printed at start-up give the annotation of every index.  States are     *)
+(* printed at start-up give the annotation of every index.  Cases can be   *)
 (* sharded over several TLC processes by the index of the first/producer   *)
 (* annotation (Shard in 0..NShards-1).                                      *)
 (***************************************************************************)
@@ -42,16 +42,16 @@ D1    == UNION {Un(k, ArgU) : k \in {"list", "set", "tuple", "vtuple", "ann", "a
                Mk3("tuple", IntT, IntT, IntT), Mk3("tuple", BoolT, StrT, IntT)}
          \cup {TVCons(IntT, StrT), TVCons(IntT, FloatT), TVCons(BoolT, StrT)}
 
-Arg2  == {ListOf(IntT), ListOf(BoolT), ListOf(AnyT), ListOf(TVar), At("list"), SetOf(IntT),
-          Tup1(IntT), Tup2(IntT, IntT), Tup2(BoolT, StrT), VTup(IntT), VTup(BoolT), At("tuple"),
+Arg2  == {ListOf(IntT), ListOf(BoolT), ListOf(TVar), At("list"),
+          Tup1(IntT), Tup2(IntT, IntT), VTup(IntT), VTup(BoolT),
           Opt(IntT), UnionOf(IntT, StrT), Ann(IntT), Ann(BoolT), ArrayOf(IntT), ArrayOf(BoolT),
-          DictOf(StrT, IntT), DictOf(StrT, BoolT), TVBound(IntT), TVar}
+          DictOf(StrT, IntT), TVBound(IntT)}                     \* arguments of depth-2 annotations
 D2    == UNION {Un(k, Arg2) : k \in {"list", "tuple", "vtuple", "ann", "array", "opt"}}
          \cup Un("set", {Tup2(IntT, IntT), VTup(IntT)})
          \cup Un("tvbound", {ListOf(IntT), VTup(IntT), UnionOf(IntT, StrT), Ann(IntT)})
-         \cup Bin("tuple", Arg2, {IntT}) \cup Bin("tuple", {IntT, BoolT}, Arg2)
+         \cup Bin("tuple", Arg2, {IntT}) \cup Bin("tuple", {IntT}, Arg2)
          \cup Bin("dict", {StrT}, Arg2)
-         \cup Bin("union", Arg2, {StrT, NoneT})
+         \cup Bin("union", Arg2, {StrT})
          \cup {TVCons(ListOf(IntT), StrT), TVCons(Ann(IntT), StrT)}
 
 Universe == IF Tier = "quick" THEN D0 \cup D1 ELSE D0 \cup D1 \cup D2
@@ -66,8 +66,10 @@ ASSUME \A i \in 1..N : PrintT(<<"ANN", ToJson([i |-> i, t |-> USeq[i]])>>)
 
 Mine(i) == i % NShards = Shard
 
-(* third annotations for the laws that need one *)
-Thirds == D0 \cup {ListOf(IntT), Opt(IntT), UnionOf(IntT, StrT), Ann(IntT), ArrayOf(IntT), TVBound(IntT), TVCons(IntT, StrT)}
+(* third annotations for the laws that need one (union introduction / elimination) *)
+ThirdsQuick == {IntT, NoneT, AnyT, TVar, UnionOf(IntT, StrT)}
+Thirds == IF Tier = "quick" THEN ThirdsQuick
+          ELSE ThirdsQuick \cup {StrT, BoolT, At("list"), ListOf(IntT), Ann(IntT), Opt(IntT), TVCons(IntT, StrT)}
 
 ---------------------------------------------------------------------------
 (* pipelines: shapes over a pair (P, C) *)
@@ -114,11 +116,16 @@ PThorough == PQuick \cup {BytesT, At("tuple"), At("dict"), ListOf(FloatT), ListO
 PSet == IF Tier = "quick" THEN PQuick ELSE PThorough
 ASSUME PSet \subseteq Universe
 
-WellFormedPipe(shape, P, C) == shape \in {"multi2", "multi2x"} => P.k # "NoAnn"    \* tuple[NoAnn, int] cannot be written
+WellFormedPipe(shape, P) == shape \in {"multi2", "multi2x"} => P.k # "NoAnn"    \* tuple[NoAnn, int] cannot be written
 
-PipeCases == {[shape |-> s, p |-> Idx(P), c |-> Idx(C), validate |-> v] :
-                 s \in Shapes, P \in {X \in PSet : Mine(Idx(X))}, C \in PSet, v \in BOOLEAN}
-PairCases == {[i |-> i, j |-> j] : i \in {x \in 1..N : Mine(x)}, j \in 1..N}
+(* Cases.  To let TLC's workers share the work inside one process, the cases are the SUCCESSORS of one  *)
+(* "row" state per first/producer annotation: pairs row i -> all [i, j]; pipes row p -> all pipelines  *)
+(* whose producer annotation is USeq[p].  Row states (j = 0 / shape = "row") carry no case.            *)
+PairRows == {[i |-> i, j |-> 0] : i \in {x \in 1..N : Mine(x)}}
+PairCases(i) == {[i |-> i, j |-> j] : j \in 1..N}
+PipeRows == {[shape |-> "row", p |-> Idx(P), c |-> 0, validate |-> FALSE] : P \in {X \in PSet : Mine(Idx(X))}}
+PipeCases(p) == {[shape |-> s, p |-> p, c |-> Idx(C), validate |-> v] :
+                    s \in {x \in Shapes : WellFormedPipe(x, USeq[p])}, C \in PSet, v \in BOOLEAN}
 
 ---------------------------------------------------------------------------
 PairOut(c) == LET A == USeq[c.i]  B == USeq[c.j]
@@ -126,16 +133,18 @@ PairOut(c) == LET A == USeq[c.i]  B == USeq[c.j]
 PipeOut(c) == LET es == Edges(c.shape, USeq[c.p], USeq[c.c])
               IN [edges |-> es, expect |-> Construct(es, c.validate),
                   ev |-> [i \in DOMAIN es |-> EdgeVerdict(es[i].p, es[i].c, es[i].via)]]
+RowOut == [row |-> TRUE]
 
-Init == IF Part = "pairs"
-        THEN case \in PairCases /\ out = PairOut(case)
-        ELSE case \in {c \in PipeCases : WellFormedPipe(c.shape, USeq[c.p], USeq[c.c])} /\ out = PipeOut(case)
-Next == UNCHANGED <<case, out>>
+Init == IF Part = "pairs" THEN case \in PairRows /\ out = RowOut
+                          ELSE case \in PipeRows /\ out = RowOut
+Next == IF Part = "pairs"
+        THEN case.j = 0 /\ case' \in PairCases(case.i) /\ out' = PairOut(case')
+        ELSE case.shape = "row" /\ case' \in PipeCases(case.p) /\ out' = PipeOut(case')
 Spec == Init /\ [][Next]_<<case, out>>
 
 ---------------------------------------------------------------------------
 (* laws of the reference relation, per pair (A, B) *)
-IsPair == Part = "pairs"
+IsPair == Part = "pairs" /\ case.j # 0
 A_ == out.a
 B_ == out.b
 
@@ -146,17 +155,19 @@ InvVerdictDomain == IsPair => /\ out.v \in {"yes", "no", "either"}
 InvReflexive     == IsPair => (LawReflexive(A_) /\ (A_ = B_ => out.v = "yes"))
 InvAnyTop        == IsPair => (LawAnyTop(A_) /\ LawAnyBottomless(B_, Universe)
                                /\ (B_ \in {AnyT, NoAnn} => out.v = "yes") /\ (A_ = NoAnn => out.v = "yes"))
-InvUnionIntro    == IsPair => \A C \in Thirds \ {NoAnn} : (~HasNoAnn(A_) /\ ~HasNoAnn(B_)) =>
-                                  LawUnionIntro(A_, B_, C, Strict) /\ LawUnionIntro(A_, B_, C, Lenient)
-InvUnionElim     == IsPair => \A C \in Thirds \ {NoAnn} : (~HasNoAnn(A_) /\ ~HasNoAnn(B_)) =>
-                                  /\ LawUnionElim(A_, B_, C, Strict)  /\ LawUnionElim(A_, B_, C, Lenient)
-                                  /\ LawUnionTarget(A_, B_, C, Strict) /\ LawUnionTarget(A_, B_, C, Lenient)
-InvCovariant     == IsPair => (LawCovariant(A_, B_, Strict) /\ LawCovariant(A_, B_, Lenient)
-                               /\ LawArity(A_, B_, Strict) /\ LawArity(A_, B_, Lenient))
-InvTransitive    == IsPair => \A C \in Universe : LawTransitive(A_, B_, C)
+(* The laws are checked under the sound reading of every don't-care class for every pair, and under the   *)
+(* lenient reading for every pair of the thorough tier (whose universe contains the quick one); the quick *)
+(* tier re-checks the lenient reading only where the two readings differ.                                 *)
+LenientToo       == Tier = "thorough" \/ out.v = "either"
+InvUnion         == IsPair => ((~HasNoAnn(A_) /\ ~HasNoAnn(B_)) =>
+                                  \A C \in Thirds \ {NoAnn} : /\ LawUnion(A_, B_, C, Strict)
+                                                              /\ LenientToo => LawUnion(A_, B_, C, Lenient))
+InvCovariant     == IsPair => /\ LawCovariant(A_, B_, Strict) /\ LawArity(A_, B_, Strict)
+                              /\ LenientToo => (LawCovariant(A_, B_, Lenient) /\ LawArity(A_, B_, Lenient))
+InvTransitive    == IsPair => LawTransitive(A_, B_, Universe)
 
 (* laws of the pipeline rule, per pipeline *)
-IsPipe == Part = "pipes"
+IsPipe == Part = "pipes" /\ case.shape # "row"
 InvPipeDomain    == IsPipe => /\ out.expect \in {"accept", "TypeError", "either"}
                               /\ LawFlagOff(out.edges)
                               /\ (~case.validate => out.expect = "accept")
@@ -172,6 +183,8 @@ InvPipeEdges     == IsPipe => LET P == USeq[case.p]  C == USeq[case.c] IN
 VCode(v) == CASE v = "no" -> 0 [] v = "yes" -> 1 [] v = "either" -> 2
 WCode(w) == (IF "tv" \in w THEN 1 ELSE 0) + (IF "bare" \in w THEN 2 ELSE 0) + (IF "num" \in w THEN 4 ELSE 0)
 Emit == IF IsPair THEN PrintT(<<"PAIR", case.i, case.j, VCode(out.v), WCode(out.why)>>)
-        ELSE PrintT(<<"PIPE", ToJson([shape |-> case.shape, p |-> case.p, c |-> case.c, validate |-> case.validate,
+        ELSE IF IsPipe
+        THEN PrintT(<<"PIPE", ToJson([shape |-> case.shape, p |-> case.p, c |-> case.c, validate |-> case.validate,
                                       edges |-> out.edges, ev |-> out.ev, expect |-> out.expect])>>)
+        ELSE TRUE
 =============================================================================
